@@ -287,7 +287,25 @@ func checkC06(c *fw.Ctx) {
 					}
 				}
 			}
-			c.Check(ok, rule, "VerifyJSONRequest."+f.field+" carries the "+map[string]string{"redacted": "redacted event", "ts": "event's origin_server_ts", "key": "required server", "validity": "room version's validity rule"}[f.what], c.P.Pos(fw.InstrPos(st)), s, "unexpected value "+s)
+			// positive evidence of a wrong value; any other unrecognised rendering is not decided
+			wrong := false
+			switch f.what {
+			case "redacted":
+				wrong = !ok && (strings.HasSuffix(s, ".JSON(param:e)") || strings.Contains(s, ".JSON(param:e)") && !strings.Contains(s, "RedactEventJSON("))
+			case "ts":
+				wrong = !ok && !strings.Contains(s, ".OriginServerTS(") && (strings.Contains(s, "time.Now(") || strings.HasPrefix(s, "param:") || !strings.ContainsAny(s, "(*"))
+			case "validity":
+				wrong = !ok && (strings.Contains(s, "NoStrictValidityCheck") || strings.Contains(s, "StrictValiditySignatureCheck") && !strings.Contains(s, "SignatureValidityCheck("))
+			}
+			construct := "VerifyJSONRequest." + f.field + " carries the " + map[string]string{"redacted": "redacted event", "ts": "event's origin_server_ts", "key": "required server", "validity": "room version's validity rule"}[f.what]
+			switch {
+			case ok:
+				c.Ok(rule, construct, c.P.Pos(fw.InstrPos(st)), s)
+			case wrong:
+				c.Fail(rule, construct, c.P.Pos(fw.InstrPos(st)), "unexpected value "+s)
+			default:
+				c.Undecided(rule, construct, "the value "+s+" was not recognised")
+			}
 			// unfiltered: inside the range loop over needed, no extra condition
 			var extra []string
 			for _, fact := range fw.DeepFacts(di.Fr, st.Block()) {
